@@ -27,17 +27,15 @@ import xml.parsers.expat
 from . import common
 from .common import cstr, cbool, clist, copt
 
-THEOREMS_FINAL = [
+THEOREMS = [
     "encode_single_pass", "encode_wellformed", "attr_wellformed",
     "text_roundtrip_partial", "text_roundtrip_refuted", "text_roundtrip_exact",
     "attr_roundtrip_partial", "attr_roundtrip_refuted_entity", "attr_roundtrip_refuted_qname",
-    "escape_once", "decode_encode_partial",
+    "escape_once",
     "reply_any_encoding", "reply_attr_any_encoding", "reply_text_exact", "trim_only_nonleaf",
     "text_roundtrip_bounded", "attr_roundtrip_bounded",
-    "tree_reparse_plain", "tree_reparse_pretty",
+    "tree_reparse_plain", "tree_reparse_pretty", "pretty_plain_same",
 ]
-
-THEOREMS = ["stub_true"]
 
 PRE = "From SV Require Import Lib.Base Gen.C04Tables C04.Model."
 
@@ -578,20 +576,26 @@ def c_dumped(t):
         copt(None if text is None else c_text(text), "text"), clist([c_dumped(k) for k in kids], "elem"))
 
 
-def run_grouped(ck, name, case_type, cases, preds, suspects=(), group=25, shard_groups=40):
+def run_grouped(ck, name, case_type, cases, preds, suspects=(), group=25, shard_groups=40, compact=None):
     """ck.run_cases with the cases that are expected to pass packed `group` to
     a Coq term (the per-case nat index of run_cases dominates Coq's time
     otherwise); members of a failing pack and the `suspects` (cases whose
     outcome is already known to differ) are evaluated one by one.  Returns
     pred -> sorted failing case indexes, exactly as run_cases would."""
+    import time as _time
+    t0 = _time.time()
     suspects = set(suspects)
     packed = [i for i in range(len(cases)) if i not in suspects]
     groups = [packed[k:k + group] for k in range(0, len(packed), group)]
     redo = set(suspects)
     if groups:
         gpreds = ["(fun l => forallb (%s) l)" % p for p in preds]
-        r = ck.run_cases(name + "_p", PRE, "list (%s)" % case_type,
-                         [clist([cases[i] for i in g], case_type) for g in groups], gpreds, shard=shard_groups)
+        gtype, gcases = case_type, cases
+        if compact:            # (type, cases, wrapper): a smaller literal for the packed cases
+            gtype, gcases = compact[0], compact[1]
+            gpreds = ["(fun l => forallb (fun c => %s (%s c)) l)" % (p, compact[2]) for p in preds]
+        r = ck.run_cases(name + "_p", PRE, "list (%s)" % gtype,
+                         [clist([gcases[i] for i in g], gtype) for g in groups], gpreds, shard=shard_groups)
         for gp in gpreds:
             for k in r[gp]:
                 redo.update(groups[k])
@@ -601,6 +605,8 @@ def run_grouped(ck, name, case_type, cases, preds, suspects=(), group=25, shard_
         r2 = ck.run_cases(name, PRE, case_type, [cases[i] for i in ind], preds, shard=150)
         for p in preds:
             res[p] = sorted(ind[j] for j in r2[p])
+    ck.extra.setdefault("coq_wall_s", {})[name] = round(_time.time() - t0, 1)
+    ck.extra.setdefault("individually_evaluated", {})[name] = len(ind)
     return res
 
 
@@ -659,8 +665,8 @@ def run(ck):
 
     # ------------------------------------------------------------------ strings
     short = list(alpha_strings(4 if thorough else 3))
-    mid = [alpha_random(rng, 4, 5) for _ in range(20000 if thorough else 1500)]
-    longs = [random_string(rng) for _ in range(6000 if thorough else 900)]
+    mid = [alpha_random(rng, 4, 5) for _ in range(20000 if thorough else 1000)]
+    longs = [random_string(rng) for _ in range(6000 if thorough else 700)]
     fixed = ["a &lt; b", "&lt;", "&amp;lt;", "x\ry", "x\r\ny", "a\tb\nc", "]]>", "<![CDATA[x]]>", "&#13;", "&#x26;",
              "SOAP-ENV:x", "tns:q", "xsi:z", "xml:k", "ns0:q", "ns1:q", "  lead trail  ", "", " ", "\n", "\r",
              "\U0001f600\u0085\u00a0", "'\"", "&", "&&amp;", "&amp", "& amp;", "\ufffd\ud7ff", "a]]>b"]
@@ -731,9 +737,11 @@ def run(ck):
     # ------------------------------------------------------------------ shared evaluation of req_case groups
     def eval_req(group, cases, meta):
         """meta[i] = dict(value, attr(bool), seen, raw, where, how, scope-rewrite(bool))"""
-        res = run_grouped(ck, group, "req_case", cases,
+        res = run_grouped(ck, group, "req_case", [c_req(*c) for c in cases],
                           ["req_agrees", "req_spec_ok", "req_wf_ok", "req_oracle_ok"],
-                          suspects=[i for i, m in enumerate(meta) if m["seen"] != m["value"]])
+                          suspects=[i for i, m in enumerate(meta) if m["seen"] != m["value"]],
+                          compact=("req_case3", ["(%s, %s, %s)" % (cstr(c[0]), c_pos(c[1]), cstr(c[2])) for c in cases],
+                                   "expand3"))
         bad_spec = set(res["req_spec_ok"]) | set(res["req_wf_ok"])
         for i in sorted(bad_spec):
             m = meta[i]
@@ -788,7 +796,7 @@ def run(ck):
                 raw = "\x00" + r[1].decode("utf-8", "replace")
         else:
             err = r[1]
-        cases.append(c_req(s, ("attr", [], []) if attr else ("text",), raw, seen))
+        cases.append((s, ("attr", [], []) if attr else ("text",), raw, seen))
         meta.append({"value": s, "attr": attr, "seen": seen, "raw": raw, "where": where, "error": err,
                      "pretty": pretty})
         ck.seen(("ser", s, attr, pretty), nontrivial=any(c in s for c in "&<>\"'\r\n\t"))
@@ -844,7 +852,7 @@ def run(ck):
                 raw = "\x00" + ix[1]
         else:
             raw = "\x00" + r[1]
-        cases.append(c_req(v, ("attr", scope, pi), raw, seen))
+        cases.append((v, ("attr", scope, pi), raw, seen))
         meta.append({"value": v, "attr": True, "seen": seen, "raw": raw, "scope": scope, "pi": pi,
                      "where": "as attribute v on %s of <r %s><k %s/></r>; PrefixNormalizer(r).refit(); r.plain()"
                               % ("k" if on_kid else "r", root_decl, kid_decl)})
@@ -867,7 +875,7 @@ def run(ck):
             scopes[label] = scope_at(probe[1], node) if node is not None else []
     rpool = fixed + rng.sample(short, 400) + mid[:500] + longs[:500] + [q + alpha_random(rng, 0, 3) for q in QNAMEY * 3]
     rpool = [s for s in rpool if is_legal(s)]
-    ncalls = 6000 if thorough else 1100
+    ncalls = 6000 if thorough else 800
     for n in range(ncalls):
         cfg = CONFIGS[n % 4]
         vs = tuple(rng.choice(rpool) for _ in range(5))
@@ -895,7 +903,7 @@ def run(ck):
                 else:
                     raw = node.raw_text if node.raw_text is not None else "\x00children"
                     seen = node.text()
-            cases.append(c_req(s, pos, raw, seen))
+            cases.append((s, pos, raw, seen))
             meta.append({"value": s, "attr": bool(attr), "seen": seen, "raw": raw, "position": label,
                          "prettyxml": cfg[0], "prefixes": cfg[1],
                          "where": "as %s of operation f (prettyxml=%s, prefixes=%s); RequestContext.envelope"
@@ -909,7 +917,7 @@ def run(ck):
     cases, meta = [], []
     ppool = fixed + rng.sample(short, 500) + mid[:400] + longs[:700]
     ppool = [s for s in ppool if is_legal(s)]
-    nrep = 6000 if thorough else 1100
+    nrep = 6000 if thorough else 800
     for n in range(nrep):
         q = rng.choice(['"', "'"])
         vs = [rng.choice(ppool) for _ in range(5)]
